@@ -106,11 +106,11 @@ def documents(tier):
             out.append(dict(tag='law:' + tag, species=base_species, params=params, rules=[],
                             reactions=[dict(id='r1', reactants=[('X', rs)], products=[('Z', ps)], modifiers=['Y'], law=law)]))
     # 2. initial amount / concentration precedence
-    for ax, cx in ((0.0, None), (2.5, None), (None, 0.0), (None, 1.5), (None, None)):
+    for ax, cx in ((0.0, None), (2.5, None), (None, 0.0), (None, 1.5), (None, None), (2e-9, None), (None, 3e-10), (1e12, None)):
         sp = [('X', ax, cx), ('Y', 3.0, None), ('Z', None, 0.7)]
         out.append(dict(tag='init', species=sp, params=params, rules=[], both=None,
                         reactions=[dict(id='r1', reactants=[('X', 1)], products=[('Z', 1)], law='k1*X')]))
-    for ax, cx in ((2.5, 4.0), (0.0, 4.0), (3.0, 0.0)):
+    for ax, cx in ((2.5, 4.0), (0.0, 4.0), (3.0, 0.0), (2e-9, 5.0), (1e-12, 0.5), (-0.0, 4.0), (1e-300, 2.0), (1e9, 3.0)):     # amounts that are tiny but not zero
         sp = [('X', ax, None), ('Y', 3.0, None), ('Z', None, 0.7)]
         out.append(dict(tag='init-both', species=sp, params=params, rules=[], both=('X', ax, cx),
                         reactions=[dict(id='r1', reactants=[('X', 1)], products=[('Z', 1)], law='k1*X')]))
